@@ -351,11 +351,6 @@ def _no_hang(ctx):
             break
     if not bad:
         chk.ok("R14.c", fjs.qualname, fjs.loc(w), f"{n} paths through one iteration: each dispatches or raises")
-    # the popped sequence entry must be the one that was dispatched
-    wf = ctx.norm.flat(fjs)
-    pops = [x for x in ast.walk(wf.node) if isinstance(x, ast.Call) and isinstance(x.func, ast.Attribute) and x.func.attr in ("popleft", "pop")]
-    if not pops:
-        chk.violation("R14.c", fjs, w, "the dispatched job is never removed from its machine sequence: the loop re-dispatches or stalls", loc=fjs.loc(w))
     test = ast.unparse(w.test)
     if "is_complete()" not in test:
         raise AnalysisError("from_job_sequences: loop condition not recognised")
